@@ -226,6 +226,25 @@ def setup() -> int:
     return 0 if rc == 0 else 2
 
 
+def private_driver():
+    """Copy the driver executable (under the build lock) so that a concurrent relink by another
+    check cannot pull it away while this run uses it."""
+    import shutil
+    import atexit
+    from . import common
+
+    src = LEAN / ".lake" / "build" / "bin" / "driver"
+    with LeanLock():
+        if not src.exists():
+            run(["lake", "build", "driver"], cwd=LEAN)
+        if not src.exists():
+            return
+        dst = src.with_name(f"driver.{os.getpid()}")
+        shutil.copy2(src, dst)
+    common.DRIVER_EXE = dst
+    atexit.register(lambda: dst.unlink(missing_ok=True))
+
+
 def check_property(pid: str, tier: str, seed: int, no_lean: bool = False) -> int:
     try:
         mod = importlib.import_module(f"harness.props.{pid.lower()}")
@@ -257,6 +276,7 @@ def check_property(pid: str, tier: str, seed: int, no_lean: bool = False) -> int
             ctx.fail("proof", "driver", "the executable model (driver) no longer builds: " + lean_res["log"][-400:])
 
     # 3. correspondence, 4. oracle (small budget)
+    private_driver()
     for stage in ("corr", "oracle"):
         fn = getattr(mod, stage, None)
         if fn is None:
